@@ -60,29 +60,26 @@ Example C19_eq_is_numeric_nonvacuous : eq_fx SFixed (3, -1, 5) (3, -1, 5) = Ok t
 Proof. split; reflexivity. Qed.
 Print Assumptions C19_eq_is_numeric_nonvacuous.
 
-(** == against a Python number m*2^e: numeric when the number is a value of the format ... *)
-Theorem C19_eq_number_partial : forall k l r raw m e q,
-  1 <= l - r + 1 -> num_is m e r q -> min_raw k (l - r + 1) <= q <= max_raw k (l - r + 1) ->
-  eq_num k (l, r, raw) m e = Ok (q =? raw).
-Proof. exact eq_num_representable. Qed.
-Print Assumptions C19_eq_number_partial.
+(** == against a Python number m*2^e (exact rational): whenever it answers, the answer is the
+    comparison of the represented numbers, for EVERY number (representable or not, in range or not) *)
+Theorem C19_eq_number_is_numeric : forall k l r raw m e t,
+  let s := Z.min e r in
+  eq_num k (l, r, raw) m e = Ok t -> t = (m * p2 (e - s) =? raw * p2 (r - s)).
+Proof. exact eq_num_numeric. Qed.
+Print Assumptions C19_eq_number_is_numeric.
 
-(** ... and NOT otherwise (excluded above: numbers that are not values of the format):
-    SFixed[0:0](0) == -0.5 answers True because the constructor truncates the number *)
-Theorem C19_eq_number_refuted : exists k x m e,
-  wf k x /\ eq_num k x m e = Ok true /\ ~ (m * p2 (e - Z.min e 0) = scaled x (Z.min e 0)).
-Proof. exists SFixed, (0, 0, 0), (-1), (-1). repeat split; cbv; congruence. Qed.
-Print Assumptions C19_eq_number_refuted.
-
-(** with seeded/_proposed_fixes/C19_eq_fix.diff (NOT in /repo; model [eq_num_eqfix]) the answer
-    is numeric for every number inside the format's range, representable or not *)
-Theorem C19_eq_number_after_eq_fix : forall k l r raw m e,
+(** ... and it answers for every number inside the range and for every number off the grid of the
+    format; the only rejection is the code's own: a multiple of 2^right outside the range
+    (static_assert "value outside valid range of fixed point number" in the constructor) *)
+Theorem C19_eq_number_answers : forall k l r raw m e,
   1 <= l - r + 1 ->
   let s := Z.min e r in
-  min_raw k (l - r + 1) * p2 (r - s) <= m * p2 (e - s) <= max_raw k (l - r + 1) * p2 (r - s) ->
-  eq_num_eqfix k (l, r, raw) m e = Ok (m * p2 (e - s) =? raw * p2 (r - s)).
-Proof. exact eq_num_eqfix_numeric. Qed.
-Print Assumptions C19_eq_number_after_eq_fix.
+  let M := m * p2 (e - s) in let P := p2 (r - s) in
+  eq_num k (l, r, raw) m e =
+    if (min_raw k (l - r + 1) * P <=? M) && (M <=? max_raw k (l - r + 1) * P) then Ok (M =? raw * P)
+    else if M mod P =? 0 then Err ERange else Ok false.
+Proof. exact eq_num_answers. Qed.
+Print Assumptions C19_eq_number_answers.
 
 (** constructors: a number that is a value of the format is preserved (int / float as exact m*2^e) *)
 Theorem C19_ctor_preserves : forall k l r m e q,
@@ -137,7 +134,7 @@ Print Assumptions C19_resize_rejects_malformed_target.
 (** regressions (also in the harness corpus): the inputs on which the tree before the C19 fix
     commits departed from the spec (rounding carry, source below the target LSB, 1 bit target,
     1 bit source, overflow >= width, negative all-ones, SFixed(Signed), T(other format),
-    integers above 2^53) now give the spec value *)
+    integers above 2^53, [SFixed[1:0](1) == 1.5]) now give the spec value *)
 Example C19_regressions :
   resize SFixed (3, -1, 15) 3 0 Round Saturate = Ok (3, 0, 7) /\
   resize UFixed (2, -1, 15) 2 0 Round Saturate = Ok (2, 0, 7) /\
@@ -151,7 +148,9 @@ Example C19_regressions :
   ctor_vec SFixed 3 (-1) true 3 (-2) = Ok (3, -1, -4) /\
   ctor_fix SFixed 4 (-2) (3, -1, -5) = Ok (4, -2, -10) /\
   ctor_fix UFixed 4 (-2) (3, -1, 5) = Ok (4, -2, 10) /\
-  ctor_num SFixed 60 0 (2 ^ 59 + 1) 0 = Ok (60, 0, 2 ^ 59 + 1).
+  ctor_num SFixed 60 0 (2 ^ 59 + 1) 0 = Ok (60, 0, 2 ^ 59 + 1) /\
+  eq_num SFixed (1, 0, 1) 3 (-1) = Ok false /\
+  eq_num UFixed (0, 0, 0) 1 (-1) = Ok false.
 Proof. exact regressions. Qed.
 Print Assumptions C19_regressions.
 
